@@ -178,6 +178,10 @@ fn prop_prefix(prop: &str) -> &'static str {
     match prop {
         p if p.starts_with("C01") => "content",
         "C03" => "durability",
+        "C13" => "stack",
+        "C16" => "names",
+        "C20" => "resources",
+        "C09" => "queue",
         "C04" => "history",
         "C05" => "concurrency",
         _ => "progress",
